@@ -89,6 +89,10 @@ Proof.
   apply nth_error_None in E. lia.
 Qed.
 
+Lemma nth_error_app_some {A} (a b : list A) i x :
+  nth_error a i = Some x -> nth_error (a ++ b) i = Some x.
+Proof. intros H. rewrite nth_error_app1; [exact H|]. eapply nth_error_some_lt; eauto. Qed.
+
 Lemma zlen_app {A} (a b : list A) : zlen (a ++ b) = zlen a + zlen b.
 Proof. unfold zlen. rewrite app_length. lia. Qed.
 
@@ -251,7 +255,7 @@ Proof.
     destruct (nth_error_lt_some ids i) as [id' Hid'].
     { rewrite HL. eapply nth_error_some_lt; eauto. }
     destruct (HR _ _ _ Hi Hid') as [P N].
-    assert (Z.to_nat id' = Z.to_nat id) by (eapply nodup_nth_inj; eauto).
+    assert (Z.to_nat id' = Z.to_nat id) by (exact (nodup_nth_inj _ _ _ _ ND N Hk)).
     exists i, k. split; [exact Hi|]. split; [|exact Hns]. rewrite Hid'. f_equal. lia.
   - rewrite zlen_app. unfold distinct_new, zlen.
     assert (length new = length (nodup key_eq_dec (filter (is_new s) ks))); [|lia].
@@ -367,7 +371,7 @@ Proof.
 Qed.
 
 (* the pending (key,id) pairs are laid out at exactly their ids *)
-Lemma layout_positions s pend new :
+Lemma layout_positions (s : spec) pend new :
   NoDup (map snd pend) -> layout (zlen s) (length pend) pend = Some new ->
   length new = length pend /\
   (forall j k, nth_error new j = Some k -> In (k, zlen s + Z.of_nat j) pend) /\
@@ -423,4 +427,947 @@ Proof.
       rewrite nth_error_app2 by (unfold zlen in *; lia).
       replace (Z.to_nat id - length s)%nat with (Z.to_nat (id - zlen s)) by (unfold zlen in *; lia).
       assumption.
+Qed.
+
+(* ---- completeness: the checker accepts every behaviour allowed by [intern_ok] *)
+Lemma assoc_find_in k i l : NoDup (map fst l) -> In (k, i) l -> assoc_find k l = Some i.
+Proof.
+  intros ND H. destruct (assoc_find k l) as [j|] eqn:E.
+  - apply assoc_find_some in E. f_equal. eapply nodup_fst_inj; eauto.
+  - apply assoc_find_none in E. exfalso. apply E. change k with (fst (k, i)). apply in_map. exact H.
+Qed.
+
+Lemma key_of_id_in k i l : NoDup (map snd l) -> In (k, i) l -> key_of_id i l = Some k.
+Proof.
+  induction l as [|[k' j] l IH]; cbn [map snd In key_of_id]; intros ND H; [destruct H|].
+  inversion ND as [|? ? Hj ND']; subst. destruct H as [H|H].
+  - inversion H; subst. rewrite Z.eqb_refl. reflexivity.
+  - destruct (i =? j) eqn:E; [|auto]. apply Z.eqb_eq in E. subst j. exfalso. apply Hj.
+    change i with (snd (k, i)). apply in_map. exact H.
+Qed.
+
+Lemma id_used_true i l : id_used i l = true -> exists k, In (k, i) l.
+Proof.
+  induction l as [|[k' j] l IH]; cbn [id_used In]; [discriminate|].
+  intros H. apply orb_true_iff in H. destruct H as [H|H].
+  - apply Z.eqb_eq in H. subst. exists k'. left. reflexivity.
+  - destruct (IH H) as [k Hk]. exists k. right. exact Hk.
+Qed.
+
+Definition pend_in (s s' : spec) (pend : list (key * Z)) : Prop :=
+  forall k i, In (k, i) pend -> 0 <= i /\ nth_error s' (Z.to_nat i) = Some k /\ ~ In k s.
+
+Lemma chk_rows_complete s new : NoDup (s ++ new) ->
+  forall ks ids pend, length ids = length ks -> NoDup (map fst pend) -> pend_in s (s ++ new) pend ->
+  (forall i k id, nth_error ks i = Some k -> nth_error ids i = Some id ->
+     0 <= id /\ nth_error (s ++ new) (Z.to_nat id) = Some k) ->
+  exists pend', chk_rows s pend ks ids = Some pend' /\ pend_in s (s ++ new) pend'.
+Proof.
+  intros ND. induction ks as [|k kr IH]; intros [|i ir] pend HL N1 PI HR; cbn [length] in HL;
+    try discriminate; cbn [chk_rows].
+  - eauto.
+  - destruct (HR 0%nat k i eq_refl eq_refl) as [Hi Hn].
+    assert (HR' : forall r k' id, nth_error kr r = Some k' -> nth_error ir r = Some id ->
+              0 <= id /\ nth_error (s ++ new) (Z.to_nat id) = Some k').
+    { intros r k' id Hk Hid. apply (HR (S r)); assumption. }
+    assert (HL' : length ir = length kr) by lia.
+    destruct (find_idx k s 0) as [j|] eqn:F.
+    { apply find_idx_some in F. destruct F as [F1 F2]. rewrite Z.sub_0_r in F2.
+      apply (nth_error_app_some _ new) in F2.
+      assert (Z.to_nat i = Z.to_nat j) by (exact (nodup_nth_inj _ _ _ _ ND Hn F2)).
+      replace j with i by lia. rewrite Z.eqb_refl. apply IH; assumption. }
+    apply find_idx_none in F.
+    destruct (assoc_find k pend) as [j|] eqn:AF.
+    { apply assoc_find_some in AF. apply PI in AF. destruct AF as (A1 & A2 & _).
+      assert (Z.to_nat i = Z.to_nat j) by (exact (nodup_nth_inj _ _ _ _ ND Hn A2)).
+      replace j with i by lia. rewrite Z.eqb_refl. apply IH; assumption. }
+    apply assoc_find_none in AF.
+    assert (C1 : (zlen s <=? i) = true).
+    { apply Z.leb_le. destruct (Z_lt_le_dec i (zlen s)) as [Hlt|Hge]; [|assumption].
+      exfalso. apply F. rewrite nth_error_app1 in Hn by (unfold zlen in Hlt; lia).
+      eapply nth_error_In; eauto. }
+    assert (C2 : id_used i pend = false).
+    { destruct (id_used i pend) eqn:E; [|reflexivity]. exfalso.
+      apply id_used_true in E. destruct E as [k' Hk']. pose proof (PI _ _ Hk') as (_ & P2 & _).
+      assert (k' = k) by congruence. subst k'. apply AF. change k with (fst (k, i)).
+      apply in_map. exact Hk'. }
+    rewrite C1, C2. cbn [andb negb]. apply IH; try assumption.
+    + rewrite map_app. cbn [map fst]. apply nodup_snoc; assumption.
+    + intros k' i' Hin. apply in_app_or in Hin. destruct Hin as [Hin|[Hin|[]]]; [auto|].
+      inversion Hin; subst. auto.
+Qed.
+
+Lemma layout_complete pend : forall new base,
+  (forall j k, nth_error new j = Some k -> key_of_id (base + Z.of_nat j) pend = Some k) ->
+  layout base (length new) pend = Some new.
+Proof.
+  induction new as [|k r IH]; intros base H; cbn [length layout]; [reflexivity|].
+  pose proof (H 0%nat k eq_refl) as H0. cbn [Z.of_nat] in H0. rewrite Z.add_0_r in H0. rewrite H0.
+  rewrite IH; [reflexivity|]. intros j k' Hj.
+  replace (base + 1 + Z.of_nat j) with (base + Z.of_nat (S j)) by lia. apply H. exact Hj.
+Qed.
+
+Lemma spec_intern_chk_complete s ks ids s' :
+  NoDup s -> intern_ok s ks ids s' -> spec_intern_chk s ks ids = Some s'.
+Proof.
+  intros NDs OK. pose proof OK as (HL & _ & ND & HR).
+  destruct (intern_ok_new_members _ _ _ _ OK) as (new & -> & NDn & Hmem).
+  assert (PI0 : pend_in s (s ++ new) []) by (intros ? ? []).
+  destruct (chk_rows_complete s new ND ks ids [] HL (NoDup_nil _) PI0 HR) as (pend & C & PI).
+  assert (PO0 : pend_ok s []).
+  { split; [constructor|]. split; [constructor|]. intros ? ? []. }
+  destruct (chk_rows_sound _ _ _ _ _ PO0 C) as (_ & (N1 & N2 & PO) & _ & R).
+  assert (K1 : forall k, In k (map fst pend) -> In k new).
+  { intros k Hk. apply in_map_iff in Hk. destruct Hk as ([k' i] & <- & Hin). cbn [fst].
+    apply PI in Hin. destruct Hin as (_ & P2 & P3). apply nth_error_In in P2.
+    apply in_app_or in P2. destruct P2; [contradiction|assumption]. }
+  assert (K2 : forall k, In k new -> In k (map fst pend)).
+  { intros k Hk. apply Hmem in Hk. destruct Hk as [Hks Hns].
+    apply In_nth_error in Hks. destruct Hks as [r Hr].
+    destruct (nth_error_lt_some ids r) as [id Hid].
+    { rewrite HL. eapply nth_error_some_lt; eauto. }
+    destruct (R _ _ _ Hr Hid) as [F|[_ P]].
+    - apply find_idx_some in F. destruct F as [_ F]. apply nth_error_In in F. contradiction.
+    - change k with (fst (k, id)). apply in_map. exact P. }
+  assert (LEN : length pend = length new).
+  { rewrite <- (map_length fst pend). apply Nat.le_antisymm; apply NoDup_incl_length; auto. }
+  unfold spec_intern_chk. rewrite C, LEN. rewrite layout_complete; [reflexivity|].
+  intros j k Hj. assert (Hin := Hj). apply nth_error_In in Hin. apply K2 in Hin.
+  apply in_map_iff in Hin. destruct Hin as ([k' i] & Hk' & Hin). cbn [fst] in Hk'. subst k'.
+  pose proof (PI _ _ Hin) as (P1 & P2 & _).
+  assert (P3 : nth_error (s ++ new) (length s + j) = Some k).
+  { rewrite nth_error_app2 by lia. replace (length s + j - length s)%nat with j by lia. exact Hj. }
+  assert (Z.to_nat i = (length s + j)%nat) by (exact (nodup_nth_inj _ _ _ _ ND P2 P3)).
+  replace (zlen s + Z.of_nat j) with i by (unfold zlen; lia).
+  apply key_of_id_in; assumption.
+Qed.
+
+Lemma spec_intern_chk_iff s ks ids s' :
+  NoDup s -> (spec_intern_chk s ks ids = Some s' <-> intern_ok s ks ids s').
+Proof.
+  intros ND. split; [apply spec_intern_chk_sound|apply spec_intern_chk_complete]; assumption.
+Qed.
+
+(* ================================================================== C. deterministic behaviour *)
+Lemma spec_intern1_ok s k s1 i : NoDup s -> spec_intern1 s k = (s1, i) ->
+  NoDup s1 /\ 0 <= i /\ nth_error s1 (Z.to_nat i) = Some k /\
+  exists new1, s1 = s ++ new1 /\ (forall x, In x new1 -> x = k) /\
+               (~ In k s -> i = zlen s).
+Proof.
+  unfold spec_intern1. intros ND H. destruct (find_idx k s 0) as [j|] eqn:F; inversion H; subst.
+  - apply find_idx_some in F. destruct F as [F1 F2]. rewrite Z.sub_0_r in F2.
+    split; [assumption|]. split; [assumption|]. split; [assumption|].
+    exists []. rewrite app_nil_r. split; [reflexivity|]. split; [intros ? []|].
+    intros Hn. exfalso. apply Hn. eapply nth_error_In; eauto.
+  - apply find_idx_none in F. split; [apply nodup_snoc; assumption|].
+    split; [apply zlen_nonneg|]. split.
+    + unfold zlen. rewrite Nat2Z.id. rewrite nth_error_app2 by lia. rewrite Nat.sub_diag. reflexivity.
+    + exists [k]. split; [reflexivity|]. split; [|reflexivity]. intros x [<-|[]]. reflexivity.
+Qed.
+
+Lemma spec_intern_ok : forall ks s s' ids,
+  NoDup s -> spec_intern s ks = (s', ids) -> intern_ok s ks ids s'.
+Proof.
+  induction ks as [|k r IH]; intros s s' ids ND H; cbn [spec_intern] in H.
+  - inversion H; subst. split; [reflexivity|]. split.
+    + exists []. rewrite app_nil_r. split; [reflexivity|]. intros ? [].
+    + split; [assumption|]. intros [|] ? ? Hk; discriminate.
+  - destruct (spec_intern1 s k) as [s1 i] eqn:E1. destruct (spec_intern s1 r) as [s2 ids'] eqn:E2.
+    inversion H; subst. clear H.
+    destruct (spec_intern1_ok _ _ _ _ ND E1) as (ND1 & Hi & Hn & new1 & -> & Hnew1 & _).
+    destruct (IH _ _ _ ND1 E2) as (HL & (new2 & -> & Hnew2) & ND2 & HR).
+    split; [cbn [length]; lia|]. split.
+    + exists (new1 ++ new2). split; [rewrite app_assoc; reflexivity|].
+      intros x Hx. apply in_app_or in Hx. destruct Hx as [Hx|Hx].
+      * left. symmetry. auto.
+      * right. auto.
+    + split; [assumption|]. intros [|j] k' id Hk Hid; cbn [nth_error] in Hk, Hid.
+      * inversion Hk; inversion Hid; subst. split; [assumption|]. apply nth_error_app_some. assumption.
+      * eauto.
+Qed.
+
+(* first-seen order: among the keys that were not live, the one with the smaller id occurs in the
+   batch before every occurrence of the one with the larger id *)
+Lemma spec_intern_first_seen : forall ks s s' ids,
+  NoDup s -> spec_intern s ks = (s', ids) ->
+  forall i j ki kj idi idj,
+    nth_error ks i = Some ki -> nth_error ids i = Some idi ->
+    nth_error ks j = Some kj -> nth_error ids j = Some idj ->
+    ~ In ki s -> ~ In kj s -> idi < idj ->
+    exists i', nth_error ks i' = Some ki /\ forall j', nth_error ks j' = Some kj -> (i' < j')%nat.
+Proof.
+  induction ks as [|k r IH]; intros s s' ids ND H i j ki kj idi idj Hki Hii Hkj Hij Nki Nkj Hlt.
+  { destruct i; discriminate. }
+  pose proof (spec_intern_ok _ _ _ _ ND H) as OK.
+  destruct (equal_keys_iff_equal_ids _ _ _ _ OK) as [Heq _].
+  destruct (new_ids_exactly_from_len _ _ _ _ OK) as [Hrange _].
+  destruct (key_eq_dec ki k) as [->|Nik].
+  - exists 0%nat. split; [reflexivity|]. intros [|j'] Hj'; [|lia].
+    cbn [nth_error] in Hj'. inversion Hj'; subst kj.
+    assert (idi = idj) by (apply (Heq i j k k idi idj); auto). lia.
+  - destruct i as [|i0]; [cbn [nth_error] in Hki; inversion Hki; congruence|].
+    cbn [spec_intern] in H.
+    destruct (spec_intern1 s k) as [s1 id0] eqn:E1. destruct (spec_intern s1 r) as [s2 ids'] eqn:E2.
+    inversion H; subst s' ids. clear H.
+    destruct (spec_intern1_ok _ _ _ _ ND E1) as (ND1 & _ & _ & new1 & -> & Hnew1 & Hid0).
+    destruct (key_eq_dec kj k) as [->|Njk].
+    + exfalso.
+      assert (idj = id0) by (apply (Heq j 0%nat k k idj id0); auto).
+      rewrite (Hid0 Nkj) in *.
+      destruct (Hrange _ _ _ Hki Hii) as [Hr _]. specialize (Hr Nki). lia.
+    + destruct j as [|j0]; [cbn [nth_error] in Hkj; inversion Hkj; congruence|].
+      cbn [nth_error] in Hki, Hii, Hkj, Hij.
+      assert (Nki1 : ~ In ki (s ++ new1)).
+      { intros Hin. apply in_app_or in Hin. destruct Hin as [Hin|Hin]; [contradiction|].
+        apply Hnew1 in Hin. contradiction. }
+      assert (Nkj1 : ~ In kj (s ++ new1)).
+      { intros Hin. apply in_app_or in Hin. destruct Hin as [Hin|Hin]; [contradiction|].
+        apply Hnew1 in Hin. contradiction. }
+      destruct (IH _ _ _ ND1 E2 _ _ _ _ _ _ Hki Hii Hkj Hij Nki1 Nkj1 Hlt) as (i' & Hi' & Hall).
+      exists (S i'). split; [exact Hi'|]. intros [|j'] Hj'; cbn [nth_error] in Hj'.
+      * inversion Hj'. congruence.
+      * apply Hall in Hj'. lia.
+Qed.
+
+Lemma spec_intern_allowed s ks : NoDup s ->
+  let '(s', ids) := spec_intern s ks in
+  intern_ok s ks ids s' /\
+  forall i j ki kj idi idj,
+    nth_error ks i = Some ki -> nth_error ids i = Some idi ->
+    nth_error ks j = Some kj -> nth_error ids j = Some idj ->
+    ~ In ki s -> ~ In kj s -> idi < idj ->
+    exists i', nth_error ks i' = Some ki /\ forall j', nth_error ks j' = Some kj -> (i' < j')%nat.
+Proof.
+  intros ND. destruct (spec_intern s ks) as [s' ids] eqn:E. split.
+  - eapply spec_intern_ok; eauto.
+  - eapply spec_intern_first_seen; eauto.
+Qed.
+
+(* ================================================================== D. histories on the spec *)
+Definition live_inv (s : spec) : Prop := NoDup s.
+Definition out_len (x : out) : Z := match x with OIds _ l => l | OEmit _ l => l | OClear l => l end.
+
+Lemma nodup_skipn {A} n (l : list A) : NoDup l -> NoDup (skipn n l).
+Proof. intros H. rewrite <- (firstn_skipn n l) in H. eapply nodup_app_r; eauto. Qed.
+
+Lemma spec_step_inv s o : live_inv s -> live_inv (fst (spec_step s o)).
+Proof.
+  unfold live_inv. destruct o as [ks| |n|]; cbn [spec_step]; intros ND.
+  - destruct (spec_intern s ks) as [s' ids] eqn:E. cbn [fst].
+    apply spec_intern_ok in E; [|assumption]. apply E.
+  - constructor.
+  - cbn [fst]. apply nodup_skipn. assumption.
+  - constructor.
+Qed.
+
+Lemma spec_run_inv ops : forall s, live_inv s -> live_inv (fst (run spec_step s ops)).
+Proof.
+  induction ops as [|o r IH]; intros s ND; cbn [run]; [exact ND|].
+  pose proof (spec_step_inv s o ND) as H1.
+  destruct (spec_step s o) as [s1 x]. cbn [fst] in H1.
+  specialize (IH s1 H1). destruct (run spec_step s1 r) as [s2 xs]. exact IH.
+Qed.
+
+Lemma emit_first_spec s n s' ks len :
+  0 <= n <= zlen s -> spec_step s (EmitFirst n) = (s', OEmit ks len) ->
+  s = ks ++ s' /\ zlen ks = n /\
+  (forall id, 0 <= id < n -> nth_error ks (Z.to_nat id) = nth_error s (Z.to_nat id)) /\
+  (forall id, n <= id -> nth_error s' (Z.to_nat (id - n)) = nth_error s (Z.to_nat id)) /\
+  len = zlen s' /\ zlen s' = zlen s - n.
+Proof.
+  intros Hn H. cbn [spec_step] in H. inversion H; subst. clear H.
+  pose proof (firstn_skipn (Z.to_nat n) s) as E.
+  assert (La : length (firstn (Z.to_nat n) s) = Z.to_nat n).
+  { apply firstn_length_le. unfold zlen in Hn. lia. }
+  set (a := firstn (Z.to_nat n) s) in *. set (b := skipn (Z.to_nat n) s) in *.
+  split; [symmetry; exact E|]. split; [unfold zlen; lia|]. split; [|split; [|split]].
+  - intros id Hid. rewrite <- E. rewrite nth_error_app1 by lia. reflexivity.
+  - intros id Hid. rewrite <- E. rewrite nth_error_app2 by lia. f_equal. lia.
+  - reflexivity.
+  - rewrite <- E. rewrite zlen_app. unfold zlen at 2. lia.
+Qed.
+
+Lemma emit_all_spec s : spec_step s EmitAll = ([], OEmit s 0).
+Proof. reflexivity. Qed.
+
+Lemma clear_spec s : spec_step s Clear = ([], OClear 0).
+Proof. reflexivity. Qed.
+
+Lemma spec_len_reported s o : out_len (snd (spec_step s o)) = zlen (fst (spec_step s o)).
+Proof.
+  destruct o as [ks| |n|]; cbn [spec_step]; try reflexivity.
+  destruct (spec_intern s ks) as [s' ids]. reflexivity.
+Qed.
+
+(* after ANY history from the empty store, the next operation leaves a duplicate-free store and
+   reports as length the number of distinct live keys *)
+Lemma spec_history_len ops o :
+  let s := fst (run spec_step [] ops) in
+  let s' := fst (spec_step s o) in
+  live_inv s /\ live_inv s' /\ out_len (snd (spec_step s o)) = zlen s' /\
+  zlen s' = zlen (nodup key_eq_dec s').
+Proof.
+  intros s s'. assert (ND : live_inv s) by (apply spec_run_inv; constructor).
+  assert (ND' : live_inv s') by (apply spec_step_inv; exact ND).
+  split; [exact ND|]. split; [exact ND'|]. split; [apply spec_len_reported|].
+  rewrite nodup_fixed_point by exact ND'. reflexivity.
+Qed.
+
+(* ---- the history checker [spec_chk_run] decides "every step is allowed by the specification" *)
+Definition step_allowed (s : spec) (o : op) (x : out) (s' : spec) : Prop :=
+  match o with
+  | Intern ks => exists ids, x = OIds ids (zlen s') /\ intern_ok s ks ids s'
+  | _ => spec_step s o = (s', x)
+  end.
+
+Inductive hist_allowed : spec -> list op -> list out -> Prop :=
+  | hist_nil s : hist_allowed s [] []
+  | hist_cons s o x s' r xr :
+      step_allowed s o x s' -> hist_allowed s' r xr -> hist_allowed s (o :: r) (x :: xr).
+
+Lemma keys_eqb_eq a b : list_eqb key_eqb a b = true <-> a = b.
+Proof. apply list_eqb_eq. exact key_eqb_eq. Qed.
+
+Lemma spec_chk_step_iff s o x s' :
+  NoDup s -> (spec_chk_step s o x = Some s' <-> step_allowed s o x s').
+Proof.
+  intros ND. destruct o as [ks| |n|]; cbn [spec_chk_step step_allowed spec_step].
+  - destruct x as [ids len|keys len|len]; try (split; [discriminate|intros (? & ? & _); discriminate]).
+    split.
+    + destruct (spec_intern_chk s ks ids) as [s1|] eqn:E; [|discriminate].
+      destruct (len =? zlen s1) eqn:El; [|discriminate]. intros H. inversion H; subst s1.
+      apply Z.eqb_eq in El. subst len. exists ids. split; [reflexivity|].
+      apply spec_intern_chk_sound; assumption.
+    + intros (ids' & Hx & OK). inversion Hx; subst ids' len.
+      rewrite (spec_intern_chk_complete _ _ _ _ ND OK). rewrite Z.eqb_refl. reflexivity.
+  - destruct x as [ids len|keys len|len]; try (split; [discriminate|intros H; inversion H]).
+    + destruct (list_eqb key_eqb s keys && (0 =? len)) eqn:E.
+      * apply andb_true_iff in E. destruct E as [E1 E2]. apply keys_eqb_eq in E1.
+        apply Z.eqb_eq in E2. subst. split; intros H; inversion H; reflexivity.
+      * split; [discriminate|]. intros H. inversion H; subst.
+        rewrite (proj2 (keys_eqb_eq keys keys) eq_refl) in E. discriminate.
+  - destruct x as [ids len|keys len|len]; try (split; [discriminate|intros H; inversion H]).
+    + destruct (list_eqb key_eqb (firstn (Z.to_nat n) s) keys &&
+                (zlen (skipn (Z.to_nat n) s) =? len)) eqn:E.
+      * apply andb_true_iff in E. destruct E as [E1 E2]. apply keys_eqb_eq in E1.
+        apply Z.eqb_eq in E2. subst. split; intros H; inversion H; reflexivity.
+      * split; [discriminate|]. intros H. inversion H; subst.
+        rewrite (proj2 (keys_eqb_eq _ _) eq_refl), Z.eqb_refl in E. discriminate.
+  - destruct x as [ids len|keys len|len]; try (split; [discriminate|intros H; inversion H]).
+    + destruct (0 =? len) eqn:E.
+      * apply Z.eqb_eq in E. subst. split; intros H; inversion H; reflexivity.
+      * split; [discriminate|]. intros H. inversion H; subst. discriminate.
+Qed.
+
+Lemma step_allowed_inv s o x s' : NoDup s -> step_allowed s o x s' -> NoDup s'.
+Proof.
+  intros ND H. destruct o as [ks| |n|]; cbn [step_allowed] in H.
+  - destruct H as (ids & _ & OK). apply OK.
+  - pose proof (spec_step_inv s EmitAll ND) as H1. rewrite H in H1. exact H1.
+  - pose proof (spec_step_inv s (EmitFirst n) ND) as H1. rewrite H in H1. exact H1.
+  - pose proof (spec_step_inv s Clear ND) as H1. rewrite H in H1. exact H1.
+Qed.
+
+Lemma spec_chk_run_iff : forall ops obs s,
+  NoDup s -> (spec_chk_run s ops obs = true <-> hist_allowed s ops obs).
+Proof.
+  induction ops as [|o r IH]; intros [|x xr] s ND; cbn [spec_chk_run].
+  - split; [constructor|reflexivity].
+  - split; [discriminate|intros H; inversion H].
+  - split; [discriminate|intros H; inversion H].
+  - split.
+    + destruct (spec_chk_step s o x) as [s1|] eqn:E; [|discriminate]. intros H.
+      apply spec_chk_step_iff in E; [|assumption].
+      econstructor; [exact E|]. apply IH; [|assumption]. eapply step_allowed_inv; eauto.
+    + intros H. inversion H as [|? ? ? s1 ? ? SA HA]; subst.
+      rewrite (proj2 (spec_chk_step_iff _ _ _ _ ND) SA). apply IH; [|assumption].
+      eapply step_allowed_inv; eauto.
+Qed.
+
+(* the deterministic specification run is itself accepted by the checker *)
+Lemma spec_step_allowed s o : NoDup s ->
+  step_allowed s o (snd (spec_step s o)) (fst (spec_step s o)).
+Proof.
+  intros ND. destruct o as [ks| |n|]; cbn [step_allowed]; try reflexivity.
+  cbn [spec_step]. destruct (spec_intern s ks) as [s' ids] eqn:E. cbn [fst snd].
+  exists ids. split; [reflexivity|]. eapply spec_intern_ok; eauto.
+Qed.
+
+Lemma spec_run_accepted : forall ops s, NoDup s ->
+  spec_chk_run s ops (snd (run spec_step s ops)) = true.
+Proof.
+  induction ops as [|o r IH]; intros s ND; cbn [run]; [reflexivity|].
+  pose proof (spec_step_allowed s o ND) as SA. pose proof (spec_step_inv s o ND) as ND1.
+  destruct (spec_step s o) as [s1 x]. cbn [fst snd] in *.
+  specialize (IH s1 ND1). destruct (run spec_step s1 r) as [s2 xs]. cbn [snd] in *.
+  cbn [spec_chk_run]. rewrite (proj2 (spec_chk_step_iff _ _ _ _ ND) SA). exact IH.
+Qed.
+
+(* ================================================================== E. refinement *)
+(* preconditions on operations *)
+Definition emit_pre (len : Z) (o : op) : Prop :=
+  match o with EmitFirst n => 0 <= n <= len | _ => True end.
+Definition keys_pre (P : key -> Prop) (o : op) : Prop :=
+  match o with Intern ks => Forall P ks | _ => True end.
+Definition single_col (k : key) : Prop := length k = 1%nat.
+Definition bool_key (k : key) : Prop := k = [None] \/ k = [Some 0] \/ k = [Some 1].
+
+Lemma single_col_keys ks : Forall single_col ks -> map (fun v => [v]) (map key1 ks) = ks.
+Proof.
+  induction 1 as [|k r Hk _ IH]; cbn [map]; [reflexivity|]. rewrite IH. f_equal.
+  destruct k as [|v [|w t]]; cbn in Hk; try discriminate. reflexivity.
+Qed.
+
+(* ------------------------------------------------------------------ E1. GroupValuesPrimitive *)
+Definition prim_abs (p : prim) : spec := build_primitive (pvalues p) (pnull p).
+Definition plen (p : prim) : Z := zlen (pvalues p).
+
+Definition prim_inv (p : prim) : Prop :=
+  (forall g, pnull p = Some g -> 0 <= g < plen p) /\
+  NoDup (pmap p) /\
+  (forall g, In g (pmap p) <-> (0 <= g < plen p /\ pnull p <> Some g)) /\
+  NoDup (prim_abs p).
+
+Lemma build_from_length vals nu : forall i, length (build_from i vals nu) = length vals.
+Proof. induction vals as [|v r IH]; intros i; cbn [build_from length]; auto. Qed.
+
+Lemma build_from_nth vals nu : forall i j,
+  nth_error (build_from i vals nu) j =
+  match nth_error vals j with
+  | Some v => Some (if zopt_eqb nu (Some (i + Z.of_nat j)) then [None] else [Some v])
+  | None => None
+  end.
+Proof.
+  induction vals as [|v r IH]; intros i [|j]; cbn [build_from nth_error]; try reflexivity.
+  - rewrite Z.add_0_r. reflexivity.
+  - rewrite IH. replace (i + 1 + Z.of_nat j) with (i + Z.of_nat (S j)) by lia. reflexivity.
+Qed.
+
+Lemma build_from_ext vals : forall i i' nu nu',
+  (forall j, (j < length vals)%nat ->
+     zopt_eqb nu (Some (i + Z.of_nat j)) = zopt_eqb nu' (Some (i' + Z.of_nat j))) ->
+  build_from i vals nu = build_from i' vals nu'.
+Proof.
+  induction vals as [|v r IH]; intros i i' nu nu' H; cbn [build_from]; [reflexivity|]. f_equal.
+  - pose proof (H 0%nat) as H0. cbn [length Z.of_nat] in H0. rewrite !Z.add_0_r in H0.
+    rewrite H0 by lia. reflexivity.
+  - apply IH. intros j Hj. pose proof (H (S j)) as HS. cbn [length] in HS.
+    replace (i + 1 + Z.of_nat j) with (i + Z.of_nat (S j)) by lia.
+    replace (i' + 1 + Z.of_nat j) with (i' + Z.of_nat (S j)) by lia.
+    apply HS. lia.
+Qed.
+
+Lemma build_from_snoc vals x nu : forall i,
+  build_from i (vals ++ [x]) nu =
+  build_from i vals nu ++ [if zopt_eqb nu (Some (i + zlen vals)) then [None] else [Some x]].
+Proof.
+  induction vals as [|v r IH]; intros i; cbn [app build_from].
+  - unfold zlen. cbn [length Z.of_nat]. rewrite Z.add_0_r. reflexivity.
+  - rewrite IH. replace (i + 1 + zlen r) with (i + zlen (v :: r)) by (unfold zlen; cbn [length]; lia).
+    reflexivity.
+Qed.
+
+Lemma build_from_firstn m : forall vals nu i,
+  firstn m (build_from i vals nu) = build_from i (firstn m vals) nu.
+Proof.
+  induction m as [|m IH]; intros [|v r] nu i; cbn [firstn build_from]; try reflexivity.
+  f_equal. apply IH.
+Qed.
+
+Lemma build_from_skipn m : forall vals nu i,
+  skipn m (build_from i vals nu) = build_from (i + Z.of_nat m) (skipn m vals) nu.
+Proof.
+  induction m as [|m IH]; intros [|v r] nu i; cbn [skipn build_from]; try reflexivity.
+  - rewrite Z.add_0_r. reflexivity.
+  - rewrite IH. f_equal. lia.
+Qed.
+
+(* the abstraction, position by position *)
+Lemma prim_abs_nth p j :
+  nth_error (prim_abs p) j =
+  match nth_error (pvalues p) j with
+  | Some v => Some (if zopt_eqb (pnull p) (Some (Z.of_nat j)) then [None] else [Some v])
+  | None => None
+  end.
+Proof. unfold prim_abs, build_primitive. rewrite build_from_nth. reflexivity. Qed.
+
+Lemma prim_abs_len p : zlen (prim_abs p) = plen p.
+Proof. unfold prim_abs, build_primitive, plen, zlen. rewrite build_from_length. reflexivity. Qed.
+
+Lemma zopt_eqb_false a b : a <> b -> zopt_eqb a b = false.
+Proof. intros H. destruct (zopt_eqb a b) eqn:E; [|reflexivity]. apply zopt_eqb_eq in E. contradiction. Qed.
+
+Lemma zopt_eqb_refl a : zopt_eqb a a = true.
+Proof. apply zopt_eqb_eq. reflexivity. Qed.
+
+Lemma prim_inv_init : prim_inv prim_init.
+Proof.
+  unfold prim_inv, prim_init, plen, zlen. cbn.
+  split; [intros ? H; discriminate|]. split; [constructor|]. split; [|constructor].
+  intros g. split; [intros []|]. lia.
+Qed.
+
+Lemma retain_shift_in n l g : In g (retain_shift n l) <-> (0 <= g /\ In (g + n) l).
+Proof.
+  unfold retain_shift. rewrite in_flat_map. split.
+  - intros (x & Hx & Hg). destruct (n <=? x) eqn:E; [|destruct Hg]. apply Z.leb_le in E.
+    destruct Hg as [<-|[]]. split; [lia|]. replace (x - n + n) with x by lia. exact Hx.
+  - intros [H0 Hin]. exists (g + n). split; [exact Hin|].
+    destruct (n <=? g + n) eqn:E; [left; lia|]. apply Z.leb_gt in E. lia.
+Qed.
+
+Lemma retain_shift_nodup n l : NoDup l -> NoDup (retain_shift n l).
+Proof.
+  induction l as [|a l IH]; intros ND; [constructor|].
+  inversion ND as [|? ? Ha ND']; subst.
+  change (retain_shift n (a :: l)) with ((if n <=? a then [a - n] else []) ++ retain_shift n l).
+  destruct (n <=? a) eqn:E; cbn [app]; [|auto].
+  constructor; [|auto]. intros Hin. apply retain_shift_in in Hin.
+  replace (a - n + n) with a in Hin by lia. tauto.
+Qed.
+
+(* values at non-null positions are pairwise distinct (consequence of the invariant) *)
+Lemma prim_inv_values_distinct p : prim_inv p ->
+  forall i j, In i (pmap p) -> In j (pmap p) ->
+    znth (pvalues p) i = znth (pvalues p) j -> i = j.
+Proof.
+  intros (Hnull & NDm & Hmap & NDa) i j Hi Hj E.
+  apply Hmap in Hi. apply Hmap in Hj. destruct Hi as [Ri Ni], Hj as [Rj Nj].
+  unfold plen, zlen in Ri, Rj. unfold znth in E.
+  assert (Z.to_nat i = Z.to_nat j); [|lia].
+  eapply (nodup_nth_inj (prim_abs p)); [exact NDa| |].
+  - rewrite prim_abs_nth. rewrite (nth_error_nth' _ 0) by lia.
+    rewrite zopt_eqb_false; [reflexivity|]. rewrite Z2Nat.id by lia. exact Ni.
+  - rewrite prim_abs_nth. rewrite (nth_error_nth' _ 0) by lia.
+    rewrite zopt_eqb_false; [|rewrite Z2Nat.id by lia; exact Nj]. rewrite E. reflexivity.
+Qed.
+
+Lemma prim_intern1_refines p v p' i : prim_inv p -> prim_intern1 p v = (p', i) ->
+  prim_inv p' /\ spec_intern1 (prim_abs p) [v] = (prim_abs p', i).
+Proof.
+  intros INV H. pose proof INV as (Hnull & NDm & Hmap & NDa).
+  pose proof (prim_abs_len p) as HL.
+  unfold prim_intern1 in H. destruct v as [k|].
+  - (* non-null value *)
+    destruct (find (fun g => znth (pvalues p) g =? k) (pmap p)) as [g|] eqn:F.
+    + inversion H; subst p' i. clear H. split; [exact INV|].
+      apply find_some in F. destruct F as [Hg Hv]. apply Z.eqb_eq in Hv.
+      apply Hmap in Hg. destruct Hg as [Rg Ng]. unfold plen, zlen in Rg.
+      assert (Hn : nth_error (prim_abs p) (Z.to_nat g) = Some [Some k]).
+      { rewrite prim_abs_nth. rewrite (nth_error_nth' _ 0) by lia.
+        rewrite zopt_eqb_false; [|rewrite Z2Nat.id by lia; exact Ng].
+        unfold znth in Hv. rewrite Hv. reflexivity. }
+      unfold spec_intern1. rewrite (find_idx_nodup _ _ NDa _ 0 Hn). f_equal. lia.
+    + inversion H; subst p' i. clear H.
+      assert (Hnot : ~ In [Some k] (prim_abs p)).
+      { intros Hin. apply In_nth_error in Hin. destruct Hin as [j Hj].
+        rewrite prim_abs_nth in Hj. destruct (nth_error (pvalues p) j) as [w|] eqn:Ew; [|discriminate].
+        pose proof (nth_error_some_lt _ _ _ Ew) as Hlt.
+        destruct (zopt_eqb (pnull p) (Some (Z.of_nat j))) eqn:Ez; [discriminate|].
+        inversion Hj; subst w.
+        assert (Hin : In (Z.of_nat j) (pmap p)).
+        { apply Hmap. split; [unfold plen, zlen; lia|]. intros Hc.
+          rewrite Hc, zopt_eqb_refl in Ez. discriminate. }
+        pose proof (find_none _ _ F _ Hin) as Hf. cbn beta in Hf. apply Z.eqb_neq in Hf.
+        apply Hf. unfold znth. rewrite Nat2Z.id. apply nth_error_nth. exact Ew. }
+      assert (Hnn : pnull p <> Some (zlen (pvalues p))).
+      { intros Hc. apply Hnull in Hc. unfold plen in Hc. lia. }
+      assert (Habs : prim_abs {| pvalues := pvalues p ++ [k]; pnull := pnull p;
+                                 pmap := pmap p ++ [zlen (pvalues p)] |} = prim_abs p ++ [[Some k]]).
+      { unfold prim_abs, build_primitive. cbn [pvalues pnull]. rewrite build_from_snoc.
+        rewrite Z.add_0_l. rewrite zopt_eqb_false by exact Hnn. reflexivity. }
+      split.
+      * unfold prim_inv. rewrite Habs. unfold plen. cbn [pvalues pnull pmap].
+        rewrite zlen_app. change (zlen [k]) with 1. fold (plen p).
+        split; [intros g Hg; apply Hnull in Hg; lia|].
+        split; [apply nodup_snoc; [exact NDm|]; intros Hc; apply Hmap in Hc; unfold plen in Hc; lia|].
+        split; [|apply nodup_snoc; assumption].
+        intros g. rewrite in_app_iff, Hmap. cbn [In]. unfold plen in *. split.
+        -- pose proof (zlen_nonneg (pvalues p)). intros [[R N]|[<-|[]]]; (split; [lia|assumption]).
+        -- intros [R N]. destruct (Z.eq_dec g (zlen (pvalues p))); [right; left; lia|left; split; [lia|assumption]].
+      * unfold spec_intern1. rewrite (proj2 (find_idx_none _ _ 0) Hnot). rewrite Habs, HL. reflexivity.
+  - (* NULL *)
+    destruct (pnull p) as [g|] eqn:En.
+    + inversion H; subst p' i. clear H. split; [exact INV|].
+      pose proof (Hnull _ eq_refl) as Rg. unfold plen, zlen in Rg.
+      assert (Hn : nth_error (prim_abs p) (Z.to_nat g) = Some [None]).
+      { rewrite prim_abs_nth. rewrite (nth_error_nth' _ 0) by lia.
+        rewrite En. rewrite Z2Nat.id by lia. rewrite zopt_eqb_refl. reflexivity. }
+      unfold spec_intern1. rewrite (find_idx_nodup _ _ NDa _ 0 Hn). f_equal. lia.
+    + inversion H; subst p' i. clear H.
+      assert (Hnot : ~ In [None] (prim_abs p)).
+      { intros Hin. apply In_nth_error in Hin. destruct Hin as [j Hj].
+        rewrite prim_abs_nth in Hj. destruct (nth_error (pvalues p) j) as [w|]; [|discriminate].
+        rewrite En in Hj. cbn in Hj. discriminate. }
+      assert (Habs : prim_abs {| pvalues := pvalues p ++ [0]; pnull := Some (zlen (pvalues p));
+                                 pmap := pmap p |} = prim_abs p ++ [[None]]).
+      { unfold prim_abs, build_primitive. cbn [pvalues pnull]. rewrite build_from_snoc.
+        rewrite Z.add_0_l, zopt_eqb_refl. f_equal. rewrite En. apply build_from_ext.
+        intros j Hj. unfold zopt_eqb, opt_eqb. apply Z.eqb_neq. unfold zlen. lia. }
+      split.
+      * unfold prim_inv. rewrite Habs. unfold plen. cbn [pvalues pnull pmap].
+        rewrite zlen_app. change (zlen [0]) with 1. fold (plen p).
+        pose proof (zlen_nonneg (pvalues p)) as H0. fold (plen p) in H0.
+        split; [intros g Hg; inversion Hg; subst; unfold plen in *; lia|].
+        split; [exact NDm|]. split; [|apply nodup_snoc; assumption].
+        intros g. rewrite Hmap. fold (plen p). split.
+        -- intros [R N]. split; [lia|]. intros Hc. inversion Hc. lia.
+        -- intros [R N]. split; [|discriminate].
+           assert (g <> plen p) by (intros ->; apply N; reflexivity). lia.
+      * unfold spec_intern1. rewrite (proj2 (find_idx_none _ _ 0) Hnot). rewrite Habs, HL. reflexivity.
+Qed.
+
+Lemma prim_intern_refines : forall vs p p' ids, prim_inv p -> prim_intern p vs = (p', ids) ->
+  prim_inv p' /\ spec_intern (prim_abs p) (map (fun v => [v]) vs) = (prim_abs p', ids).
+Proof.
+  induction vs as [|v r IH]; intros p p' ids INV H; cbn [prim_intern map spec_intern] in *.
+  - inversion H; subst. split; [assumption|reflexivity].
+  - destruct (prim_intern1 p v) as [p1 i] eqn:E1. destruct (prim_intern p1 r) as [p2 ids'] eqn:E2.
+    inversion H; subst. clear H.
+    destruct (prim_intern1_refines _ _ _ _ INV E1) as [INV1 S1].
+    destruct (IH _ _ _ INV1 E2) as [INV2 S2].
+    split; [assumption|]. rewrite S1, S2. reflexivity.
+Qed.
+
+Lemma prim_step_refines p o p' x :
+  prim_inv p -> emit_pre (plen p) o -> keys_pre single_col o -> prim_step p o = (p', x) ->
+  prim_inv p' /\ spec_step (prim_abs p) o = (prim_abs p', x).
+Proof.
+  intros INV PRE KP H. pose proof INV as (Hnull & NDm & Hmap & NDa).
+  destruct o as [ks| |n|]; cbn [prim_step spec_step emit_pre keys_pre] in *.
+  - destruct (prim_intern p (map key1 ks)) as [p1 ids] eqn:E. inversion H; subst. clear H.
+    destruct (prim_intern_refines _ _ _ _ INV E) as [INV1 S1].
+    rewrite (single_col_keys _ KP) in S1. split; [assumption|].
+    rewrite S1. rewrite prim_abs_len. reflexivity.
+  - inversion H; subst. split; [exact prim_inv_init|]. reflexivity.
+  - set (m := Z.to_nat n) in *.
+    assert (Hm : (m <= length (pvalues p))%nat) by (unfold plen, zlen in PRE; lia).
+    assert (Lf : length (firstn m (pvalues p)) = m) by (apply firstn_length_le; exact Hm).
+    assert (Ls : zlen (skipn m (pvalues p)) = plen p - n).
+    { unfold zlen, plen. rewrite skipn_length. unfold zlen. lia. }
+    destruct (pnull p) as [v|] eqn:En.
+    + pose proof (Hnull _ eq_refl) as Rv.
+      destruct (n <=? v) eqn:Env.
+      * apply Z.leb_le in Env. inversion H; subst p' x. clear H.
+        assert (Habs : prim_abs {| pvalues := skipn m (pvalues p); pnull := Some (v - n);
+                                   pmap := retain_shift n (pmap p) |} = skipn m (prim_abs p)).
+        { unfold prim_abs, build_primitive. cbn [pvalues pnull]. rewrite build_from_skipn, En.
+          apply build_from_ext. intros j Hj. cbn.
+          destruct (v - n =? 0 + Z.of_nat j) eqn:E1; destruct (v =? 0 + Z.of_nat m + Z.of_nat j) eqn:E2;
+            try reflexivity; rewrite ?Z.eqb_eq, ?Z.eqb_neq in *; lia. }
+        split.
+        -- unfold prim_inv. rewrite Habs. unfold plen. cbn [pvalues pnull pmap]. rewrite Ls.
+           split; [intros g Hg; inversion Hg; lia|].
+           split; [apply retain_shift_nodup; exact NDm|].
+           split; [|apply nodup_skipn; exact NDa].
+           intros g. rewrite retain_shift_in, Hmap. split.
+           ++ intros (G0 & R & N). split; [lia|]. intros Hc. inversion Hc. apply N. f_equal. lia.
+           ++ intros (R & N). split; [lia|]. split; [lia|]. intros Hc. inversion Hc. apply N. f_equal. lia.
+        -- rewrite Habs. f_equal. f_equal.
+           ++ unfold prim_abs, build_primitive. rewrite build_from_firstn, En.
+              apply build_from_ext. intros j Hj. rewrite Lf in Hj. cbn.
+              apply Z.eqb_neq. lia.
+           ++ unfold prim_abs, build_primitive, zlen. rewrite !skipn_length, build_from_length. reflexivity.
+      * apply Z.leb_gt in Env. inversion H; subst p' x. clear H.
+        assert (Habs : prim_abs {| pvalues := skipn m (pvalues p); pnull := None;
+                                   pmap := retain_shift n (pmap p) |} = skipn m (prim_abs p)).
+        { unfold prim_abs, build_primitive. cbn [pvalues pnull]. rewrite build_from_skipn, En.
+          apply build_from_ext. intros j Hj. cbn. symmetry. apply Z.eqb_neq. lia. }
+        split.
+        -- unfold prim_inv. rewrite Habs. unfold plen. cbn [pvalues pnull pmap]. rewrite Ls.
+           split; [intros g Hg; discriminate|].
+           split; [apply retain_shift_nodup; exact NDm|].
+           split; [|apply nodup_skipn; exact NDa].
+           intros g. rewrite retain_shift_in, Hmap. split.
+           ++ intros (G0 & R & N). split; [lia|]. discriminate.
+           ++ intros (R & N). split; [lia|]. split; [lia|]. intros Hc. inversion Hc. lia.
+        -- rewrite Habs. f_equal. f_equal.
+           ++ unfold prim_abs, build_primitive. rewrite build_from_firstn, En. reflexivity.
+           ++ unfold prim_abs, build_primitive, zlen. rewrite !skipn_length, build_from_length. reflexivity.
+    + inversion H; subst p' x. clear H.
+      assert (Habs : prim_abs {| pvalues := skipn m (pvalues p); pnull := None;
+                                 pmap := retain_shift n (pmap p) |} = skipn m (prim_abs p)).
+      { unfold prim_abs, build_primitive. cbn [pvalues pnull]. rewrite build_from_skipn, En.
+        apply build_from_ext. intros j Hj. reflexivity. }
+      split.
+      * unfold prim_inv. rewrite Habs. unfold plen. cbn [pvalues pnull pmap]. rewrite Ls.
+        split; [intros g Hg; discriminate|].
+        split; [apply retain_shift_nodup; exact NDm|].
+        split; [|apply nodup_skipn; exact NDa].
+        intros g. rewrite retain_shift_in, Hmap. split.
+        -- intros (G0 & R & N). split; [lia|]. discriminate.
+        -- intros (R & N). split; [lia|]. split; [lia|]. discriminate.
+      * rewrite Habs. f_equal. f_equal.
+        -- unfold prim_abs, build_primitive. rewrite build_from_firstn, En. reflexivity.
+        -- unfold prim_abs, build_primitive, zlen. rewrite !skipn_length, build_from_length. reflexivity.
+  - inversion H; subst. split; [exact prim_inv_init|]. reflexivity.
+Qed.
+
+(* generic lifting of a one-step refinement to histories *)
+Section Lift.
+  Context {C : Type} (cstep : C -> op -> C * out) (clen : C -> Z)
+          (abs : C -> spec) (inv : C -> Prop) (P : key -> Prop).
+  Context (len_ok : forall c, inv c -> clen c = zlen (abs c)).
+  Context (step_ok : forall c o c' x, inv c -> emit_pre (clen c) o -> keys_pre P o ->
+             cstep c o = (c', x) -> inv c' /\ spec_step (abs c) o = (abs c', x)).
+
+  Lemma emit_pre_dec len o :
+    (match o with EmitFirst n => (0 <=? n) && (n <=? len) | _ => true end) = true <-> emit_pre len o.
+  Proof.
+    destruct o; cbn [emit_pre]; try tauto.
+    rewrite andb_true_iff, !Z.leb_le. tauto.
+  Qed.
+
+  Lemma lift_run : forall ops c, inv c -> Forall (keys_pre P) ops ->
+    ops_ok spec_step (@zlen key) (abs c) ops = true ->
+    inv (fst (run cstep c ops)) /\
+    abs (fst (run cstep c ops)) = fst (run spec_step (abs c) ops) /\
+    snd (run cstep c ops) = snd (run spec_step (abs c) ops).
+  Proof.
+    induction ops as [|o r IH]; intros c INV KP OK; cbn [run ops_ok] in *.
+    - auto.
+    - apply andb_true_iff in OK. destruct OK as [OK1 OK2]. apply emit_pre_dec in OK1.
+      rewrite <- (len_ok _ INV) in OK1. inversion KP as [|? ? KP1 KP2]; subst.
+      destruct (cstep c o) as [c1 x] eqn:E1.
+      destruct (step_ok _ _ _ _ INV OK1 KP1 E1) as [INV1 S1].
+      rewrite S1 in *. cbn [fst] in OK2.
+      destruct (IH _ INV1 KP2 OK2) as (I2 & A2 & O2).
+      destruct (run cstep c1 r) as [c2 xs]. destruct (run spec_step (abs c1) r) as [s2 ys].
+      cbn [fst snd] in *. split; [assumption|]. split; [assumption|]. f_equal. assumption.
+  Qed.
+
+  Lemma lift_ops_ok : forall ops c, inv c -> Forall (keys_pre P) ops ->
+    ops_ok cstep clen c ops = ops_ok spec_step (@zlen key) (abs c) ops.
+  Proof.
+    induction ops as [|o r IH]; intros c INV KP; cbn [ops_ok]; [reflexivity|].
+    inversion KP as [|? ? KP1 KP2]; subst. rewrite <- (len_ok _ INV).
+    destruct (match o with EmitFirst n => (0 <=? n) && (n <=? clen c) | _ => true end) eqn:E;
+      [|reflexivity].
+    apply emit_pre_dec in E. cbn [andb].
+    destruct (cstep c o) as [c1 x] eqn:E1.
+    destruct (step_ok _ _ _ _ INV E KP1 E1) as [INV1 S1]. rewrite S1. cbn [fst].
+    apply IH; assumption.
+  Qed.
+End Lift.
+
+Lemma prim_refines_spec_gen ops p : prim_inv p -> Forall (keys_pre single_col) ops ->
+  ops_ok spec_step (@zlen key) (prim_abs p) ops = true ->
+  prim_inv (fst (run prim_step p ops)) /\
+  prim_abs (fst (run prim_step p ops)) = fst (run spec_step (prim_abs p) ops) /\
+  snd (run prim_step p ops) = snd (run spec_step (prim_abs p) ops).
+Proof.
+  apply (lift_run prim_step plen prim_abs prim_inv single_col).
+  - intros c _. symmetry. apply prim_abs_len.
+  - exact prim_step_refines.
+Qed.
+
+Lemma prim_refines_spec ops : Forall (keys_pre single_col) ops ->
+  ops_ok spec_step (@zlen key) [] ops = true ->
+  snd (run prim_step prim_init ops) = snd (run spec_step [] ops).
+Proof.
+  intros KP OK. apply (prim_refines_spec_gen ops prim_init prim_inv_init KP OK).
+Qed.
+
+(* the precondition may equivalently be checked against the implementation's own len() *)
+Lemma prim_ops_ok_iff ops : Forall (keys_pre single_col) ops ->
+  ops_ok prim_step plen prim_init ops = ops_ok spec_step (@zlen key) [] ops.
+Proof.
+  intros KP.
+  apply (lift_ops_ok prim_step plen prim_abs prim_inv single_col); auto using prim_inv_init.
+  - intros c _. symmetry. apply prim_abs_len.
+  - exact prim_step_refines.
+Qed.
+
+(* ------------------------------------------------------------------ E2. GroupValuesBoolean *)
+(* position i holds NULL / true / false according to which slot records index i *)
+Definition bool_abs (b : boolst) : spec :=
+  bool_build 0 (Z.to_nat (bool_len b)) (btrue b) (bnull b).
+
+Definition olist (o : option Z) : list Z := match o with Some i => [i] | None => [] end.
+Definition bslots (b : boolst) : list Z := olist (bfalse b) ++ olist (btrue b) ++ olist (bnull b).
+(* the occupied slots hold pairwise distinct indices, all below the group count
+   (hence exactly 0 .. len-1) *)
+Definition bool_inv (b : boolst) : Prop :=
+  NoDup (bslots b) /\ forall i, In i (bslots b) -> 0 <= i < bool_len b.
+
+Definition mkb (f t n : option Z) : boolst := {| bfalse := f; btrue := t; bnull := n |}.
+Definition bool_states : list boolst :=
+  [ mkb None None None;
+    mkb (Some 0) None None; mkb None (Some 0) None; mkb None None (Some 0);
+    mkb (Some 0) (Some 1) None; mkb (Some 1) (Some 0) None;
+    mkb (Some 0) None (Some 1); mkb (Some 1) None (Some 0);
+    mkb None (Some 0) (Some 1); mkb None (Some 1) (Some 0);
+    mkb (Some 0) (Some 1) (Some 2); mkb (Some 0) (Some 2) (Some 1);
+    mkb (Some 1) (Some 0) (Some 2); mkb (Some 1) (Some 2) (Some 0);
+    mkb (Some 2) (Some 0) (Some 1); mkb (Some 2) (Some 1) (Some 0) ].
+
+Ltac in_states := cbn [In bool_states]; repeat (first [left; reflexivity | right]).
+Ltac nodup_false ND :=
+  exfalso; repeat rewrite NoDup_cons_iff in ND; cbn [In] in ND; intuition congruence.
+
+Lemma bool_inv_enum b : bool_inv b -> In b bool_states.
+Proof.
+  destruct b as [[f|] [t|] [n|]]; unfold bool_inv, bslots, bool_len;
+    cbn [bfalse btrue bnull olist app b2z]; intros [ND R]; fold (mkb None None None).
+  - pose proof (R f ltac:(cbn [In]; tauto)) as Rf. pose proof (R t ltac:(cbn [In]; tauto)) as Rt.
+    pose proof (R n ltac:(cbn [In]; tauto)) as Rn.
+    assert (Hf : f = 0 \/ f = 1 \/ f = 2) by lia. assert (Ht : t = 0 \/ t = 1 \/ t = 2) by lia.
+    assert (Hn : n = 0 \/ n = 1 \/ n = 2) by lia.
+    destruct Hf as [->|[->| ->]], Ht as [->|[->| ->]], Hn as [->|[->| ->]];
+      first [solve [in_states] | nodup_false ND].
+  - pose proof (R f ltac:(cbn [In]; tauto)) as Rf. pose proof (R t ltac:(cbn [In]; tauto)) as Rt.
+    assert (Hf : f = 0 \/ f = 1) by lia. assert (Ht : t = 0 \/ t = 1) by lia.
+    destruct Hf as [->| ->], Ht as [->| ->]; first [solve [in_states] | nodup_false ND].
+  - pose proof (R f ltac:(cbn [In]; tauto)) as Rf. pose proof (R n ltac:(cbn [In]; tauto)) as Rn.
+    assert (Hf : f = 0 \/ f = 1) by lia. assert (Hn : n = 0 \/ n = 1) by lia.
+    destruct Hf as [->| ->], Hn as [->| ->]; first [solve [in_states] | nodup_false ND].
+  - pose proof (R f ltac:(cbn [In]; tauto)) as Rf. assert (f = 0) by lia. subst. in_states.
+  - pose proof (R t ltac:(cbn [In]; tauto)) as Rt. pose proof (R n ltac:(cbn [In]; tauto)) as Rn.
+    assert (Ht : t = 0 \/ t = 1) by lia. assert (Hn : n = 0 \/ n = 1) by lia.
+    destruct Ht as [->| ->], Hn as [->| ->]; first [solve [in_states] | nodup_false ND].
+  - pose proof (R t ltac:(cbn [In]; tauto)) as Rt. assert (t = 0) by lia. subst. in_states.
+  - pose proof (R n ltac:(cbn [In]; tauto)) as Rn. assert (n = 0) by lia. subst. in_states.
+  - in_states.
+Qed.
+
+Lemma bool_states_inv b : In b bool_states -> bool_inv b.
+Proof.
+  intros H. cbn [In bool_states] in H.
+  repeat (destruct H as [<-|H]); try contradiction;
+    (split; [cbn; repeat constructor; cbn [In]; intuition congruence
+            | cbn; intros i Hi; intuition lia]).
+Qed.
+
+Lemma bool_inv_init : bool_inv bool_init.
+Proof. apply bool_states_inv. in_states. Qed.
+
+Lemma bool_build_length cnt tpos npos : forall i, length (bool_build i cnt tpos npos) = cnt.
+Proof. induction cnt as [|c IH]; intros i; cbn [bool_build length]; auto. Qed.
+
+Lemma bool_len_nonneg b : 0 <= bool_len b.
+Proof. unfold bool_len, b2z. destruct (bfalse b), (btrue b), (bnull b); lia. Qed.
+
+Lemma bool_abs_len b : zlen (bool_abs b) = bool_len b.
+Proof.
+  unfold bool_abs, zlen. rewrite bool_build_length. pose proof (bool_len_nonneg b). lia.
+Qed.
+
+(* what the abstraction says about each slot *)
+Lemma bool_abs_slots b : bool_inv b ->
+  (forall i, bfalse b = Some i -> nth_error (bool_abs b) (Z.to_nat i) = Some [Some 0]) /\
+  (forall i, btrue b = Some i -> nth_error (bool_abs b) (Z.to_nat i) = Some [Some 1]) /\
+  (forall i, bnull b = Some i -> nth_error (bool_abs b) (Z.to_nat i) = Some [None]).
+Proof.
+  intros INV. apply bool_inv_enum in INV. cbn [In bool_states] in INV.
+  repeat (destruct INV as [<-|INV]); try contradiction;
+    (split; [|split]); intros i Hi; cbn in Hi; inversion Hi; subst; reflexivity.
+Qed.
+
+Lemma bool_intern1_refines b v b' i :
+  bool_inv b -> In v [None; Some 0; Some 1] -> bool_intern1 b v = (b', i) ->
+  bool_inv b' /\ spec_intern1 (bool_abs b) [v] = (bool_abs b', i).
+Proof.
+  intros INV Hv H. apply bool_inv_enum in INV. cbn [In bool_states] in INV. cbn [In] in Hv.
+  repeat (destruct INV as [<-|INV]); try contradiction;
+    repeat (destruct Hv as [<-|Hv]); try contradiction;
+    vm_compute in H; inversion H; subst b' i;
+    (split; [apply bool_states_inv; in_states | vm_compute; reflexivity]).
+Qed.
+
+Lemma bool_key_key1 k : bool_key k -> In (key1 k) [None; Some 0; Some 1] /\ [key1 k] = k.
+Proof. intros [->|[->| ->]]; cbn; tauto. Qed.
+
+Lemma bool_intern_refines : forall ks b b' ids,
+  bool_inv b -> Forall bool_key ks -> bool_intern b (map key1 ks) = (b', ids) ->
+  bool_inv b' /\ spec_intern (bool_abs b) ks = (bool_abs b', ids).
+Proof.
+  induction ks as [|k r IH]; intros b b' ids INV KP H; cbn [bool_intern map spec_intern] in *.
+  - inversion H; subst. split; [assumption|reflexivity].
+  - inversion KP as [|? ? K1 K2]; subst. destruct (bool_key_key1 _ K1) as [Kin Keq].
+    destruct (bool_intern1 b (key1 k)) as [b1 i] eqn:E1.
+    destruct (bool_intern b1 (map key1 r)) as [b2 ids'] eqn:E2.
+    inversion H; subst. clear H.
+    destruct (bool_intern1_refines _ _ _ _ INV Kin E1) as [INV1 S1]. rewrite Keq in S1.
+    destruct (IH _ _ _ INV1 K2 E2) as [INV2 S2].
+    split; [assumption|]. rewrite S1, S2. reflexivity.
+Qed.
+
+Lemma bool_emit_refines b n b' ks :
+  bool_inv b -> 0 <= n <= bool_len b -> bool_emit b n = (b', ks) ->
+  bool_inv b' /\ ks = firstn (Z.to_nat n) (bool_abs b) /\
+  bool_abs b' = skipn (Z.to_nat n) (bool_abs b).
+Proof.
+  intros INV Hn H. apply bool_inv_enum in INV. cbn [In bool_states] in INV.
+  assert (Hc : n = 0 \/ n = 1 \/ n = 2 \/ n = 3).
+  { pose proof (bool_len_nonneg b). assert (bool_len b <= 3); [|lia].
+    unfold bool_len, b2z. destruct (bfalse b), (btrue b), (bnull b); lia. }
+  repeat (destruct INV as [<-|INV]); try contradiction;
+    destruct Hc as [->|[->|[->| ->]]];
+    try (exfalso; vm_compute in Hn; destruct Hn as [H1 H2]; apply H2; reflexivity);
+    vm_compute in H; inversion H; subst b' ks;
+    (split; [apply bool_states_inv; in_states | split; vm_compute; reflexivity]).
+Qed.
+
+Lemma bool_step_refines b o b' x :
+  bool_inv b -> emit_pre (bool_len b) o -> keys_pre bool_key o -> bool_step b o = (b', x) ->
+  bool_inv b' /\ spec_step (bool_abs b) o = (bool_abs b', x).
+Proof.
+  intros INV PRE KP H.
+  destruct o as [ks| |n|]; cbn [bool_step spec_step emit_pre keys_pre] in *.
+  - destruct (bool_intern b (map key1 ks)) as [b1 ids] eqn:E. inversion H; subst. clear H.
+    destruct (bool_intern_refines _ _ _ _ INV KP E) as [INV1 S1].
+    split; [assumption|]. rewrite S1, bool_abs_len. reflexivity.
+  - destruct (bool_emit b (bool_len b)) as [b1 ks] eqn:E. inversion H; subst. clear H.
+    pose proof (bool_len_nonneg b) as H0.
+    destruct (bool_emit_refines _ _ _ _ INV (conj H0 (Z.le_refl _)) E) as (INV1 & K & A).
+    assert (Hlen : length (bool_abs b) = Z.to_nat (bool_len b)).
+    { unfold bool_abs. apply bool_build_length. }
+    rewrite <- Hlen in K, A. rewrite firstn_all in K. rewrite skipn_all in A.
+    split; [assumption|]. rewrite A, K. rewrite <- bool_abs_len, A. reflexivity.
+  - destruct (bool_emit b n) as [b1 ks] eqn:E. inversion H; subst. clear H.
+    destruct (bool_emit_refines _ _ _ _ INV PRE E) as (INV1 & K & A).
+    split; [assumption|]. rewrite <- A, <- K, bool_abs_len. reflexivity.
+  - inversion H; subst. split; [exact bool_inv_init|]. reflexivity.
+Qed.
+
+Lemma bool_refines_spec_gen ops b : bool_inv b -> Forall (keys_pre bool_key) ops ->
+  ops_ok spec_step (@zlen key) (bool_abs b) ops = true ->
+  bool_inv (fst (run bool_step b ops)) /\
+  bool_abs (fst (run bool_step b ops)) = fst (run spec_step (bool_abs b) ops) /\
+  snd (run bool_step b ops) = snd (run spec_step (bool_abs b) ops).
+Proof.
+  apply (lift_run bool_step bool_len bool_abs bool_inv bool_key).
+  - intros c _. symmetry. apply bool_abs_len.
+  - exact bool_step_refines.
+Qed.
+
+Lemma bool_refines_spec ops : Forall (keys_pre bool_key) ops ->
+  ops_ok spec_step (@zlen key) [] ops = true ->
+  snd (run bool_step bool_init ops) = snd (run spec_step [] ops).
+Proof.
+  intros KP OK. apply (bool_refines_spec_gen ops bool_init bool_inv_init KP OK).
+Qed.
+
+Lemma bool_ops_ok_iff ops : Forall (keys_pre bool_key) ops ->
+  ops_ok bool_step bool_len bool_init ops = ops_ok spec_step (@zlen key) [] ops.
+Proof.
+  intros KP.
+  apply (lift_ops_ok bool_step bool_len bool_abs bool_inv bool_key); auto using bool_inv_init.
+  - intros c _. symmetry. apply bool_abs_len.
+  - exact bool_step_refines.
+Qed.
+
+(* ================================================================== F. the upstream defect *)
+Definition stale_witness : list op :=
+  [Intern [[Some 1]; [None]; [Some 2]]; Clear; Intern [[None]; [Some 7]]].
+
+Lemma stale_clear_refuted :
+  exists ops, Forall (keys_pre single_col) ops /\
+    ops_ok spec_step (@zlen key) [] ops = true /\
+    snd (run prim_step_stale_clear prim_init ops) <> snd (run spec_step [] ops).
+Proof.
+  exists stale_witness. split; [|split].
+  - unfold stale_witness. repeat constructor.
+  - vm_compute. reflexivity.
+  - vm_compute. intros H. discriminate H.
 Qed.
